@@ -11,6 +11,8 @@ mod rng;
 mod runner;
 
 mod c06_layout;
+mod c10_mmio;
+mod c13_config;
 
 use proto::RunResult;
 use runner::{Ctx, Tier};
@@ -83,6 +85,8 @@ fn main() {
             // ---- property dispatch: one line per property module ----
             let (cases, rule, exhaustive, extra) = match prop.as_str() {
                 "C06" => c06_layout::run(&ctx),
+                "C10" => c10_mmio::run(&ctx),
+                "C13" => c13_config::run(&ctx),
                 _ => {
                     eprintln!("unknown property {}", prop);
                     std::process::exit(2)
